@@ -148,6 +148,16 @@ m("next-does-not-remove-when-last", ["C09"], C,
 m("error-path-allocates", ["C13"], "microscpi/src/lib.rs", "mod commands;\n", "extern crate alloc;\nmod commands;\n", )
 M[-1]["extra"] = [(I, "                self.handle_error(error.into());\n", "                let _note = alloc::format!(\"{:?}\", error);\n                self.handle_error(error.into());\n")]
 
+# --- proc-macro
+MAC = "microscpi-macros/src/lib.rs"
+m("macro-surplus-arguments-accepted", ["C06"], MAC,
+  "                if args.len() != #arg_count {", "                if args.len() < #arg_count {")
+m("macro-error-count-and-next-swapped", ["C09"], MAC,
+  'handler: CommandHandler::StandardFunction("ErrorCommands::system_error_count"),',
+  'handler: CommandHandler::StandardFunction("ErrorCommands::system_error_next"),')
+M[-1]["extra"] = [(MAC, 'handler: CommandHandler::StandardFunction("ErrorCommands::system_error_next"),\n            future: false,\n        }));\n\n        commands.push',
+                   'handler: CommandHandler::StandardFunction("ErrorCommands::system_error_count"),\n            future: false,\n        }));\n\n        commands.push')]
+
 # --- benign changes: behaviour the properties leave open; NO check may fire on these
 m("benign-rest-of-message-skipped-after-execution-error", [], I,
   "                    self.handle_error(error);\n                }\n\n                if call.terminated",
